@@ -388,13 +388,15 @@ def run(ctx):
     ctx.notes["exhaustive_scope"] = ("model side: all call sequences over the alphabets of %s (fixpoint); implementation side: generated "
                                      "sequences, stream and damaged-packet executions (sampled)" % [c for _, c, _ in T["mc"]])
 
-    totals, seen, drifts = {}, set(), {}
+    totals, seen, drifts, tag_jobs = {}, set(), {}, {}
     for j in done:
         ctx.evaluations += j.events
         ctx.nontrivial |= j.hashes
         for k, v in j.calls.items():
             totals[k] = totals.get(k, 0) + v
         seen |= j.seen
+        for t in j.seen:
+            tag_jobs[t] = tag_jobs.get(t, 0) + 1
         fam = re.sub(r"_\d+$", "", j.name)
         if j.sample and not any(s.get("driver") == fam for s in ctx.samples if isinstance(s, dict)):
             ctx.sample({"driver": fam, "event": j.sample}, limit=6)
@@ -408,6 +410,7 @@ def run(ctx):
         ctx.spec_drift("DecOp", "%s: %d event(s), first at %s line %d (execution %d): %s" % (list(key), len(lst), name, ln, x, ev[:700]))
     ctx.notes["recorded_calls"] = totals
     ctx.notes["trace_tags_seen"] = sorted(seen)
+    ctx.notes["trace_tag_jobs"] = dict(sorted(tag_jobs.items()))           # in how many of the jobs each sub-step was taken
     ctx.notes["property_clause_rejections"] = NPROP[0]
     # vacuity guards on the implementation side
     for k in ("dec_ok", "lost_ok", "fec_ok", "dec_err", "ctl"):
